@@ -35,6 +35,9 @@ mut('m20_lazy_context_no_attr', 'scanner.py', ("        self.error_context_info 
     ("", "        context, lineno, colno = self.parser.get_error_context(self.parser.get_error_context_info())"))
 # the .aux error keeps the live context object again (F22 re-seeded)
 mut('m21_aux_alias_context', 'auxfile.py', "        self.context = copy(context)", "        self.context = context")
+# a bytes file name is decoded strictly
+mut('m22_filename_strict_decode', 'exceptions.py', "            return _decode_filename(self.filename, errors='replace')", "            import sys\n            return self.filename.decode(sys.getfilesystemencoding() or 'utf-8')")
+mut('m23_filename_decode_ignore', 'exceptions.py', "            return _decode_filename(self.filename, errors='replace')", "            return _decode_filename(self.filename, errors='ignore')")
 # harmless
 mut('h1_refactor_capture', 'errors.py', """    global captured_errors
     captured_errors = []
